@@ -65,4 +65,60 @@ def scheduleFromString (sc : Scheduler) (freq : String) (n : Nat) : Except ErrKi
   else if freq = "every_step" ∨ freq = "time_step" then .ok (scheduleNSteps sc.steps 1)
   else .error .invalid_argument
 
+/-- The calendar and frequency part of `Config`. -/
+structure CalCfg where
+  start : Date
+  end_ : Date
+  unit : StepUnit
+  n : Nat
+  seasonStart : Int
+  seasonEnd : Int
+  outFreq : String
+  outN : Nat
+  useMortality : Bool
+  mortFreq : String
+  mortN : Nat
+  useLethal : Bool
+  lethalMonth : Int
+  useSurvival : Bool
+  survMonth : Int
+  survDay : Int
+  useRates : Bool
+  ratesFreq : String
+  ratesN : Nat
+  useQuarantine : Bool
+  quarFreq : String
+  quarN : Nat
+  weatherSize : Nat
+deriving Repr, Inhabited
+
+/-- What `Config::create_schedules` produces (optional schedules only for enabled features). -/
+structure Schedules where
+  steps : List Step
+  spread : List Bool
+  output : List Bool
+  mortality : Option (List Bool)
+  lethal : Option (List Bool)
+  survival : Option (List Bool)
+  rates : Option (List Bool)
+  quarantine : Option (List Bool)
+  weather : Option (List Nat)
+deriving Repr, Inhabited
+
+def optSched (use : Bool) (x : Except ErrKind (List Bool)) : Except ErrKind (Option (List Bool)) :=
+  if use then x.map some else .ok none
+
+/-- `Config::create_schedules`: which builder every feature gets, in the code's order. -/
+def createSchedules (c : CalCfg) : Except ErrKind Schedules := do
+  let sc ← Scheduler.make c.start c.end_ c.unit c.n
+  let spread := scheduleSpread sc.steps c.seasonStart c.seasonEnd
+  let output ← scheduleFromString sc c.outFreq c.outN
+  let mortality ← optSched c.useMortality (scheduleFromString sc c.mortFreq c.mortN)
+  let lethal := if c.useLethal then some (scheduleYearly sc.steps c.lethalMonth 1) else none
+  let survival := if c.useSurvival then some (scheduleYearly sc.steps c.survMonth c.survDay) else none
+  let rates ← optSched c.useRates (scheduleFromString sc c.ratesFreq c.ratesN)
+  let quarantine ← optSched c.useQuarantine (scheduleFromString sc c.quarFreq c.quarN)
+  let weather ← if c.weatherSize ≠ 0 then (scheduleWeather sc.steps.length c.weatherSize).map some else .ok none
+  pure { steps := sc.steps, spread, output, mortality, lethal, survival, rates, quarantine, weather }
+
 end Pops
